@@ -280,6 +280,12 @@ def extract(repo):
 
     body = fn_body(cont, "create_continuity_locked")
     g["create_locked"] = flat(cont_tokens(body)) if body is not None else []
+    # the index save is not under a condition of its own: same brace depth as the insert into the in-memory index
+    g["create_saves_always"] = False
+    if body is not None:
+        a, b = re.search(r"\.continuities\s*\.insert\(", body), re.search(r"\bsave_index\(", body)
+        g["create_saves_always"] = bool(a and b and a.start() < b.start() and depth_at(body, a.start()) == depth_at(body, b.start())
+                                        and len(re.findall(r"\bsave_index\(", body)) == 1)
     body = fn_body(cont, "create_continuity")
     g["create"] = flat(cont_tokens(body)) if body is not None else []
     g["locked"] = []
@@ -344,6 +350,8 @@ def main():
     L.append(f"Definition gen_snapshot : list N := {coq_list(g['snapshot'])}.")
     L.append(f"Definition gen_write_blob : list N := {coq_list(g['write_blob'])}.")
     L.append(f"Definition gen_writers_use_atomic : bool := {coq_bool(g['writers_use_atomic'])}.")
+    L.append("(* create_continuity_locked saves the index unconditionally (same block as the in-memory insert) *)")
+    L.append(f"Definition gen_create_saves_always : bool := {coq_bool(g['create_saves_always'])}.")
     L.append("(* save_index / write_blob_atomic call nothing but the known effects and pure helpers *)")
     L.append(f"Definition gen_leaf_calls_ok : bool := {coq_bool(g['leaf_calls_ok'])}.")
     L.append(f"Definition gen_artifact_before_frame : bool := {coq_bool(g['artifact_before_frame'])}.")
@@ -380,7 +388,7 @@ def main():
     L.append("  && lN_eqb gen_save_index (skel save_index)")
     L.append("  && lN_eqb gen_write_blob (skel (write_blob 0))")
     L.append("  && lN_eqb gen_snapshot [140; 71; 141; 72; 142; 73]")
-    L.append("  && gen_writers_use_atomic && gen_artifact_before_frame && gen_leaf_calls_ok")
+    L.append("  && gen_writers_use_atomic && gen_artifact_before_frame && gen_leaf_calls_ok && gen_create_saves_always")
     L.append("  && Nat.eqb (length gen_locked) 11")
     L.append("  && forallb (fun l => lN_eqb l locked_spec && lN_eqb (modelled l) (skel (locked_append fixed st_warm 0 0 10 None))) gen_locked")
     L.append("  && lN_eqb gen_create_locked create_locked_spec")
